@@ -433,3 +433,32 @@ def r16_5(ctx, rr):
             seen += 1
         rr.instances += 1
         rr.check(bool(asserts), "%s:vertex-bound-asserted" % nm, "%s::set_up_graphs must assert that the number of vertices fits the Vertex type (<= Vertex::MAX + 1)" % ref, b.span)
+
+
+@rule("R16.7", props=["C16", "C11"], floor=10, title="vertex arithmetic (num_vertices, edge helpers) is carried out in 64-bit or wider types", configs=("default", "mwhc"))
+def r16_7(ctx, rr):
+    """`(l + 2) << s`, `shard * (l + 2) << s`, `x * n >> w` overflow silently when computed in the
+    32-bit type of the fields: every arithmetic node on the way to a vertex must be usize/u64/u128."""
+    for cfg in sorted(ctx.facts.keys()):
+        F = ctx.F(cfg)
+        bodies = []
+        for ref, ms in impls_of_shard_edge(F).items():
+            if cfg == "mwhc" and "Mwhc" not in ref:
+                continue
+            for nm in ("num_vertices", "edge", "local_edge", "sort_key", "shard"):
+                if nm in ms:
+                    bodies.append(ms[nm])
+        if cfg == "default":
+            bodies += [b for b in F.fns() if re.search(r"shard_edge::(fuse|mwhc)::(edge_1|edge_2|edge_2_big|edge)$", b.path)]
+        for b in bodies:
+            narrow = []
+            for n in walk(b.body):
+                if n.get("k") == "Binary" and n["op"] in ("<<", "*", "+", "-") and F.ty(n) in INT_WIDTH and INT_WIDTH[F.ty(n)] < 64:
+                    narrow.append(n)
+                    continue
+            rr.instances += 1
+            key = "%s:wide-arithmetic" % short_fn(b.key)
+            rr.ob(not narrow, key=key, nontrivial=bool(narrow))
+            if narrow:
+                n = narrow[0]
+                rr.violate(key, "%s computes `%s` in the %d-bit type %s: for large key sets the result exceeds the type and is silently truncated, so num_vertices()/the edge no longer agree with each other" % (b.key, show(F, n)[:120], INT_WIDTH[F.ty(n)], F.ty(n)), F.loc(n))
